@@ -2,6 +2,18 @@
 import json, sys
 props = [json.loads(l) for l in open('/verif/properties.jsonl')]
 CLAIMED = {
+ 'C02': dict(cat='other', tech='static analysis: E4 symbolic evaluation; prepared-matrix layout map derived from the producer by expression identity with the module transform; consumer compared with the complex dot product as a real-polynomial identity; entry points compared by normal form',
+   text='For both prepared layouts (N<8, N>=8), all nrows x ncols and (a_size,res_size) of the box incl. 0, both CPU paths: vmp_prepare stores the module transform of every matrix entry exactly once and fills PMAT; vmp_apply_dft_to_dft stores in column j exactly sum_{r<min(nrows,a_size)} a_dft[r]*pmat[r][j] under the producer layout, zero beyond; vmp_apply_dft stores the same expressions as dft followed by apply_dft_to_dft. Does NOT decide that the transform-domain product equals the polynomial product within the error budget (numeric).',
+   note='N<=16 quick/32 thorough; transforms themselves are C06', ref='DESIGN 3/C02'),
+ 'C04': dict(cat='other', tech='static analysis: interval analysis (E5) over the symbolic value DAG of each product at ell=MAX_ELL with every operand at the extreme of its layout; tables obtained by instantiating the constructors of the current source',
+   text='For the ten q120 vector-matrix product kernels (ref and AVX2): no add/mul/shl/sub intermediate leaves its 64-bit word at maximal length and operands, and every operand cut to 32 bits for a 32x32 multiply either fits or has its high part consumed (detects the 31-bit prime configuration failure). Congruence mod q is C10. NTT/iNTT levels are NOT covered by this check.',
+   note='intervals ignore lane correlations (conservative); NTT envelope not covered', ref='DESIGN 3/C04'),
+ 'C10': dict(cat='other', tech='static analysis: E5 intervals on the conversions; symbolic congruence proof modulo each prime by rewriting E4 expressions to polynomials over Z/q with exact bit-splitting identities',
+   text='Conversions of q120_arithmetic_simple.c have no wrapping intermediate for arbitrary inputs and the centred lift lands in +-(Q-1)/2; the reference a*a, b*b, b*c products are congruent to sum x_i*y_i modulo each lane prime and every AVX2 product (incl. the two-coefficient block forms) is congruent to its reference, for ell in the box incl. 0 (zero result). Congruence of the conversions themselves is not decided.',
+   note='bit-splitting identities are integer identities valid because C04 shows no wrap; ell<=3 quick / 17 thorough (per-iteration code is uniform)', ref='DESIGN 3/C10'),
+ 'C16': dict(cat='other', tech='static analysis: wrapper/slot shape from the IR and the instantiated module table; E4 data-dependence (support sets) of opaque outputs',
+   text='Decides only the structural conditions: every public wrapper is a pure forwarder to its own slot with its own prototype and every slot is filled for FFT64 on both CPU paths; producers/consumers of VEC_ZNX_DFT/BIG/SVP_PPOL address limb i with the geometry of bytes_of_* (output limb i depends only on input limb i, uses all of it, zero beyond). The value of pipelines is NOT decided.',
+   note='N<=16 quick / 64 thorough', ref='DESIGN 3/C16'),
  'C05': dict(cat='other', tech='static analysis: symbolic evaluation of the kernels (data abstract) + ring-normal-form rewriting proof of the digit/carry identity; ordered call-trace of the limb loop from the region engine',
    text='Proves in+carry_in = out+2^k*carry_out in Z/2^64 for each of the six argument shapes of znx_normalize and every k of the domain (helpers recognised by idiom; unknown idiom = exit 2), that the argument shapes agree, and the limb-loop structure (order, carry-only passes, zero extension, carry buffer, exact limb selection of the range variant) for every (res_size,a_size) of the box incl. 0. Does not decide integer ranges (|a_i|<=2^62) nor uniqueness of the expansion as a statement about integers.',
    note='bit-vector axiom 2^k*ashr(t-D(t),k)=t-D(t); box for shapes', ref='DESIGN 3/C05'),
